@@ -137,6 +137,40 @@ Definition sqrtrem_v (a : Z) : Z * Z := sqrtrem3 a.
 (*@ root | src/kernel/gmp++/gmp++_int_misc.C | bool root(Integer& q, const Integer &a, uint32_t n) | 4aa1c447cf9e *)
 Definition root (a n : Z) : Z * bool := mpz_root a (u32_to_u64 n).
 
+(* ------------------------------------------------------------------ gmp++_int_misc.C: logp, a loop of givaro's own.
+   The std::list `pows` is a Gallina list whose HEAD is the list's back().  First loop (do ... while): push puiss, square it,
+   go on while the square is <= a; fuel = bit length of a (enough: ProofsLogp.v).  Second loop: walk the saved powers downwards.
+   `1 << pows.size()` is an int shift; the model computes 2^size in Z (size < 31 whenever a < p^(2^31)). *)
+Fixpoint logp_up (fuel : nat) (a puiss : Z) (pows : list Z) : list Z :=
+  let pows1 := puiss :: pows in
+  let puiss1 := opMulEq_I puiss puiss in
+  match fuel with
+  | O => pows1
+  | S f => if opLe_I puiss1 a then logp_up f a puiss1 pows1 else pows1
+  end.
+Fixpoint logp_down (a puiss : Z) (pows : list Z) (res : Z) : Z :=
+  match pows with
+  | nil => res
+  | q :: rest => let sq := opMul_I puiss q in
+                 if opLe_I sq a then logp_down a sq rest (res + 2 ^ Z.of_nat (List.length rest)) else logp_down a puiss rest res
+  end.
+(*@ logp | src/kernel/gmp++/gmp++_int_misc.C | int64_t logp(const Integer& a, const Integer& p) | 0 *)
+Definition logp (a p : Z) : Z :=
+  match logp_up (Z.to_nat (Z.log2 a)) a (ctor_copy p) nil with
+  | nil => 0
+  | puiss :: pows => logp_down a puiss pows (2 ^ Z.of_nat (List.length pows))
+  end.
+
+(* ------------------------------------------------------------------ gmp++_int_gcd.C: pp(P,Q), the part of P prime to Q (a loop of givaro's own).
+   operator/ (C02's subject) is the truncated quotient; every division here is exact.  fuel = bit length of P. *)
+Fixpoint pp_loop (fuel : nat) (U V : Z) : Z :=
+  match fuel with
+  | O => U
+  | S f => if opNe_I V Integer_one then let U1 := Z.quot U V in pp_loop f U1 (gcd_v U1 V) else U
+  end.
+(*@ pp | src/kernel/gmp++/gmp++_int_gcd.C | Integer pp( const Integer& P, const Integer& Q ) | 0 *)
+Definition pp (P Q : Z) : Z := pp_loop (S (Z.to_nat (Z.log2 (Z.abs P)))) (ctor_copy P) (gcd_v P Q).
+
 (* ------------------------------------------------------------------ givinteger.h: ZRing<Integer> wrappers with a body of their own *)
 (*@ dom_pow_i64 | src/kernel/integer/givinteger.h | Rep& pow(Rep& r, const Rep& n, const int64_t l) const | a7c9a23f4f70 *)
 Definition dom_pow_i64 (r n l : Z) : Z := assign r (pow_i64 n l).
